@@ -78,6 +78,12 @@ def scenarios(ctx):
         sel = json.load(open(sp))
         for cfg, pol, items, name in sel:
             out.append((cfg, pol, items.split(","), name))
+    # a stream error followed by many more calls: every call after the error logs a message, so the connection's message list grows
+    # (and reallocates) while last_error keeps being updated; the harness reads htp_connp_get_last_error() after every call
+    bad = b"POST /e HTTP/1.1\r\nHost: h\r\nTransfer-Encoding: chunked\r\n\r\nzz\r\n"
+    out.append(("-", "-", [">" + traffic.hx(bad)] + [">" + traffic.hx(b"x")] * 40 + ["<" + traffic.hx(b"HTTP/1.1 200 OK\r\n\r\n")], "gen-error-then-calls"))
+    out.append(("-", "-", [">" + traffic.hx(b"GET / HTTP/1.1\r\nHost: h\r\n\r\n"), "<" + traffic.hx(b"HTTP/1.1 200 OK\r\nTransfer-Encoding: chunked\r\n\r\n-1\r\n")] +
+                ["<" + traffic.hx(b"y")] * 40, "gen-res-error-then-calls"))
     folded = b"GET / HTTP/1.1\r\nHost: h\r\nX-A: a\r\n b\r\nX-A: c\r\n\r\n"
     out.append(("-", "reg", [">" + traffic.hx(folded[:20]), ">" + traffic.hx(folded[20:]), "<" + traffic.hx(b"HTTP/1.0 200 OK\r\n\r\nbody"), "c"], "gen-folded"))
     return out
